@@ -83,6 +83,10 @@ structure Input where
   sview : Nat → Option SigView
   /-- result of decrypting an EncryptedAssertion element (validated and parsed), by label -/
   plain : Nat → Option Node
+  /-- struct view of an element as a `Response` (artifact flow: the Response is not the root), by label -/
+  rview : Nat → Option SP.ResponseS := fun _ => none
+  /-- struct view of an element as an `ArtifactResponse`: InResponseTo, IssueInstant, Issuer, status -/
+  arview : Nat → Option (String × Int × Option String × String) := fun _ => none
 
 /-- a certificate token that did not decode -/
 def badCert : String := "!bad"
@@ -336,6 +340,17 @@ def encEntry (inp : Input) (el : Node) : SP.Entry :=
     | some a => ⟨.encOk, sigStateT inp defaultCtx p, a⟩
     | none => ⟨.encBad, sigStateT inp defaultCtx p, dummyAssertion⟩
 
+/-- the assertion-bearing children of a Response element (`ctx`: context of its parent); `none` when a
+    child with the sought tag has an unresolvable prefix -/
+def entriesT (inp : Input) (ctx : NSCtx) (resp : Node) : Option (List SP.Entry) :=
+  match subContext ctx resp.attrs with
+  | none => none
+  | some cin =>
+    match findChildren cin samlNS "EncryptedAssertion" resp.children,
+          findChildren cin samlNS "Assertion" resp.children with
+    | some encs, some plains => some (encs.map (encEntry inp) ++ plains.map (plainEntry inp cin))
+    | _, _ => none
+
 /-- `ParseXMLResponse` -/
 def parseT (inp : Input) : Outcome SP.AssertionS :=
   if !inp.wellFormed then .err "malformed"
@@ -345,17 +360,60 @@ def parseT (inp : Input) : Outcome SP.AssertionS :=
     match inp.header with
     | none => .err "unmarshal-response"
     | some hdr =>
-      match subContext defaultCtx inp.root.attrs with
-      | none => .err "namespace"
-      | some cin =>
-        match findChildren cin samlNS "EncryptedAssertion" inp.root.children,
-              findChildren cin samlNS "Assertion" inp.root.children with
-        | some encs, some plains =>
-          SP.parseResponse inp.cfg inp.now inp.ids inp.url .required respSig
-            { hdr with entries := encs.map (encEntry inp) ++ plains.map (plainEntry inp cin) }
-        | _, _ =>
-          -- findChildren fails only after the response-level checks have passed; its error is an
-          -- error whatever they said
-          .err "find-children"
+      match entriesT inp defaultCtx inp.root with
+      | some es => SP.parseResponse inp.cfg inp.now inp.ids inp.url .required respSig { hdr with entries := es }
+      | none =>
+        -- findChildren fails only after the response-level checks have passed; its error is an
+        -- error whatever they said
+        .err "find-children"
+
+def soapNS : String := "http://schemas.xmlsoap.org/soap/envelope/"
+def samlpNS : String := "urn:oasis:names:tc:SAML:2.0:protocol"
+
+/-- etree's own `NamespaceURI()` of a parentless element: the first declaration of its prefix among
+    its attributes, else "" -/
+def etreeRootNS (n : Node) : String :=
+  match n.attrs.find? (fun a => if n.space = "" then a.space = "" ∧ a.key = "xmlns" else a.space = "xmlns" ∧ a.key = n.space) with
+  | some a => a.value
+  | none => ""
+
+def exactlyOne (l : Option (List Node)) : Option Node :=
+  match l with
+  | some [x] => some x
+  | _ => none
+
+/-- `ParseXMLArtifactResponse`: Envelope / Body / ArtifactResponse / Response, each step `findOneChild` -/
+def parseArtifactT (inp : Input) (resolveId : String) : Outcome SP.AssertionS :=
+  if !inp.wellFormed then .err "malformed"
+  else if !inp.root.isElem then .err "no-root"
+  else if etreeRootNS inp.root ≠ soapNS ∨ inp.root.tag ≠ "Envelope" then .err "not-an-envelope"
+  else
+    match subContext defaultCtx inp.root.attrs with
+    | none => .err "namespace"
+    | some cRoot =>
+      match exactlyOne (findChildren cRoot soapNS "Body" inp.root.children) with
+      | none => .err "body"
+      | some body =>
+        match subContext cRoot body.attrs with
+        | none => .err "namespace"
+        | some cBody =>
+          match exactlyOne (findChildren cBody samlpNS "ArtifactResponse" body.children) with
+          | none => .err "artifact-response"
+          | some art =>
+            match inp.arview art.nid with
+            | none => .err "unmarshal-artifact-response"
+            | some (irt, ii, iss, st) =>
+              let asig := sigStateT inp cBody art
+              let resp : Option (SP.SigState × SP.ResponseS) :=
+                match subContext cBody art.attrs with
+                | none => none
+                | some cArt =>
+                  match exactlyOne (findChildren cArt samlpNS "Response" art.children) with
+                  | none => none
+                  | some r =>
+                    match inp.rview r.nid, entriesT inp cArt r with
+                    | some hdr, some es => some (sigStateT inp cArt r, { hdr with entries := es })
+                    | _, _ => none
+              SP.parseArtifactResponse inp.cfg inp.now inp.ids resolveId inp.url ⟨irt, ii, iss, st, asig, resp⟩
 
 end SamlVerif.Tree
